@@ -3,7 +3,7 @@ CONSTANTS
   NB = 1
   Par <- MC_Par4
   GitOnly = {4}
-  MaxSteps = 5
+  MaxSteps = 6
   MaxTerms = 5
   Emit = "all"
   Bug = "none"
